@@ -525,8 +525,11 @@ class HwCheck:
             else:
                 out.append(res(name, "ensures-seq", PROVED if st == "unsat" else UNKNOWN, t, be, steps=steps))
         for name, (e, depth) in self.covers.items():
-            t0 = time.time(); k, wit = self.bmc(e, depth)
-            out.append(res(name, "cover", OK if wit is not None else VACUOUS, time.time() - t0, "z3(bmc)", depth=k))
+            cap = self.bmc_time * (6 if os.environ.get("VERIF_TIER") == "thorough" else 2)
+            t0 = time.time(); k, wit = self.bmc(e, depth, time_cap=cap)
+            # a cover search that ran out of its time budget is undecided, not vacuous (vacuous = the whole depth was explored without reaching the event)
+            timed_out = wit is None and time.time() - t0 >= cap
+            out.append(res(name, "cover", OK if wit is not None else (UNKNOWN if timed_out else VACUOUS), time.time() - t0, "z3(bmc)", depth=k, **({"info": "cover search ran out of time"} if timed_out else {})))
         return out
     def _write_replay(self, replay_dir, cid, name, payload):
         if not replay_dir: return None
